@@ -58,8 +58,8 @@ Lemma media_type_no_gt im mt : X.media_type im = Some mt -> no_c 62 mt = true.
 Proof. unfold X.media_type. intro E. repeat (match type of E with (if ?c then _ else _) = _ => destruct c end; [injection E as <-; reflexivity|]). discriminate. Qed.
 
 Theorem content_opf_balanced title s : textual title -> textual (X.param "epub-uuid" s) -> textual (X.param "document-author" s) ->
-  Forall (ref_ok s) (X.chap_entries s) -> balanced_chunk (fst (X.content_opf title s)).
-Proof. intros Htitle Huuid Hauth Hrefs. pose proof (html_escape_textual (lang s)) as Hlang. unfold X.content_opf. cbv zeta.
+  textual (X.param "epub-subject" s) -> Forall (ref_ok s) (X.chap_entries s) -> balanced_chunk (fst (X.content_opf title s)).
+Proof. intros Htitle Huuid Hauth Hsub Hrefs. pose proof (html_escape_textual (lang s)) as Hlang. unfold X.content_opf. cbv zeta.
   (* the images: each adds a self-closing item; the state only gathers diagnostics *)
   set (step := fun '(acc, s0) im => _).
   assert (Hfold : forall l a, balanced_chunk (fst a) ->
@@ -73,8 +73,8 @@ Proof. intros Htitle Huuid Hauth Hrefs. pose proof (html_escape_textual (lang s)
   match goal with |- context [fold_left step (images s) ?init] =>
     pose proof (Hfold (images s) init (fun _ => eq_refl)) as Hf2; destruct (fold_left step (images s) init) as [imgs s1] end.
   cbn [fst snd] in Hf2. destruct Hf2 as [Himg Es1]. clear Hfold.
-  assert (Hsubj : balanced_chunk (match html_escape (X.param "epub-subject" s) with [] => [] | _ => R "<dc:subject id=""epub-subject-1"">" ++ html_escape (X.param "epub-subject" s) ++ R "</dc:subject>" ++ NLs end)).
-  { intro S. destruct (html_escape (X.param "epub-subject" s)) as [|c0 r0] eqn:E; [reflexivity|]. rewrite <- E. norm. rewrite html_escape_textual. norm. reflexivity. }
+  assert (Hsubj : balanced_chunk (match X.param "epub-subject" s with [] => [] | _ => R "<dc:subject id=""epub-subject-1"">" ++ X.param "epub-subject" s ++ R "</dc:subject>" ++ NLs end)).
+  { intro S. destruct (X.param "epub-subject" s) as [|c0 r0] eqn:E; [reflexivity|]. rewrite <- E in *. norm. rewrite Hsub. norm. reflexivity. }
   assert (Hau : balanced_chunk (match X.param "document-author" s with [] => [] | a => R "<dc:creator id=""epub-creator-1"">" ++ a ++ R "</dc:creator>" ++ NLs end)).
   { intro S. destruct (X.param "document-author" s) as [|c0 r0] eqn:E; [reflexivity|]. rewrite <- E in *. norm. rewrite Hauth. norm. reflexivity. }
   assert (Hitems : balanced_chunk (flat_map (fun e => R "<item id=""" ++ X.get_id s e ++ R """ href=""" ++ lx_ref e ++ R """ media-type=""application/xhtml+xml"" />" ++ NLs) (X.chap_entries s))).
